@@ -131,7 +131,13 @@ func runC03(c *Ctx) {
 								ok = true
 							}
 						}
-						c.Check("C03-R1", key+" verification skipped only for cache hits", c.Pos(br.Node), ok, "a layer may skip verification only on the true edge of skipVerify[layer.Digest], a map that only receives downloadBlob's cacheHit")
+						// the dual form: a set of digests that must be verified, consulted with `_, in := need[d]; !in`
+						if !ok && vid != nil {
+							if m := needSetOf(g, br.Loc, info.Defs[vid]); m != nil {
+								ok, _ = needSetDiscipline(g, m, dls)
+							}
+						}
+						c.Check("C03-R1", key+" verification skipped only for cache hits", c.Pos(br.Node), ok, "a layer may skip verification only on the true edge of skipVerify[layer.Digest], a map that only receives downloadBlob's cacheHit (or on the absent edge of a set that gains the digest on every cache miss)")
 					}
 				}
 			}
@@ -424,7 +430,19 @@ func runC03(c *Ctx) {
 				c.Check("C03-R4", l.Key()+" Completed advances by the copied count", c.Pos(a.Node), okN && okEdge, "part.Completed.Add must take the count returned by CopyN, on the non-failing edge of the copy's error test")
 			}
 			// the bytes counted are the bytes requested: CopyN count = part.Size - part.Completed.Load(); Range header from StartsAt..StopsAt-1
-			okCnt := mentionsSel(cc.Args[2], "Size") && mentionsSel(cc.Args[2], "Completed")
+			okCnt := false
+			{
+				// the count, with locals replaced by what defines them (remaining := part.Size - completed;
+				// completed := part.Completed.Load())
+				size, done := false, false
+				for _, x := range expand(lg, cc.Args[2], 2) {
+					if e, isE := x.(ast.Expr); isE {
+						size = size || mentionsSel(e, "Size")
+						done = done || mentionsSel(e, "Completed")
+					}
+				}
+				okCnt = size && done
+			}
 			c.Check("C03-R4", l.Key()+" CopyN count is the remaining part size", c.Pos(cc), okCnt, "the copy must be limited to part.Size - part.Completed")
 			// final return propagates the copy error (resumable errors are returned, not swallowed)
 			for _, ex := range lg.Returns() {
@@ -442,6 +460,7 @@ func runC03(c *Ctx) {
 	// ------------------------------------------------------------ R7 guarded indexing on the pull path
 	c.Rule("C03-R7", "on every function reachable from PullModel inside package server, a string is indexed or sliced only under a guard: a dominating comparison of the bound with len(s) (same condition via && counts), or — for digests sliced with constant bounds — a validated digest (GetBlobsPath succeeded and the digest is not empty; blobDownload.Digest is only ever stored from such a value)")
 	pullFns := reachable(c, "server", "PullModel")
+	constSliceSitesFollowed = 0
 	c.Expect("C03-R7", "functions reachable from PullModel in package server", len(pullFns), 15)
 	nIdx := 0
 	fDigest := c.P.LookupField("server", "blobDownload", "Digest")
@@ -504,7 +523,8 @@ func runC03(c *Ctx) {
 			}
 		}
 	}
-	c.Expect("C03-R7", "string index/slice sites on the pull path", nIdx, 6)
+	c.Expect("C03-R7", "string index/slice sites on the pull path", nIdx+constSliceSitesFollowed, 6)
+	constSliceSitesFollowed = 0
 	// constant index into a slice (a registry response decides how long Parts, Layers … are)
 	nSl := 0
 	for _, fn := range pullFns {
@@ -819,8 +839,65 @@ func constSliceGuarded(c *Ctx, g *core.Graph, h core.Hit, sp core.Path, maxConst
 	if fDigest != nil && sp.Last() == fDigest {
 		return true, "blobDownload.Digest invariant (validated at every store)"
 	}
+	// (iv) the sliced string is a parameter of a helper: every call site in the package passes a
+	// value that is guarded there (one level, so that `shortDigest(d) = d[7:19]` is judged by its callers)
+	if sp.Valid() && len(sp.Fields) == 0 && ff.Obj != nil {
+		pi := -1
+		for i := 0; ; i++ {
+			p := paramAt(ff, i)
+			if p == nil {
+				break
+			}
+			if p == sp.Root {
+				pi = i
+			}
+		}
+		if pi >= 0 && !constSliceViaCallers {
+			constSliceViaCallers = true
+			defer func() { constSliceViaCallers = false }()
+			sites, allOK, why := 0, true, ""
+			for _, caller := range c.P.FuncsOf("server") {
+				for _, cf := range withLits(caller) {
+					cg := c.G(cf)
+					for _, ch := range cg.Find(func(n ast.Node) bool {
+						call, ok := n.(*ast.CallExpr)
+						if !ok {
+							return false
+						}
+						fo, _ := core.Callee(info, call).(*types.Func)
+						return fo != nil && fo.FullName() == ff.Obj.FullName()
+					}) {
+						sites++
+						call := ch.Node.(*ast.CallExpr)
+						if pi >= len(call.Args) {
+							allOK, why = false, "variadic call"
+							continue
+						}
+						ap := core.PathOf(info, call.Args[pi])
+						if !ap.Valid() {
+							allOK, why = false, "argument "+core.ExprString(call.Args[pi])+" at "+c.Pos(call)+" is not a plain variable/field"
+							continue
+						}
+						if ok, w := constSliceGuarded(c, cg, ch, ap, maxConst, fDigest, cf); !ok {
+							allOK, why = false, "call at "+c.Pos(call)+": "+w
+						}
+					}
+				}
+			}
+			constSliceSitesFollowed += sites
+			if sites > 0 && allOK {
+				return true, "every call site passes a guarded value"
+			}
+			if sites > 0 {
+				return false, "helper parameter " + sp.String() + ": " + why
+			}
+		}
+	}
 	return false, "constant-bound slice of " + sp.String() + " without a dominating length fact or digest validation"
 }
+
+var constSliceViaCallers bool   // recursion guard for rule (iv)
+var constSliceSitesFollowed int // call sites judged in place of a helper's slice (they count as sites)
 
 // boundGuarded: variable bound b of an index/slice on s is compared with len(s) by a
 // condition that dominates the use (any edge for slices' high bounds reached through loop
@@ -855,7 +932,15 @@ func boundGuarded(g *core.Graph, h core.Hit, b ast.Expr, sp core.Path, ff *core.
 		return true
 	}
 	if isIndex {
-		for _, a := range g.AtomsAt(h.Loc) {
+		atoms := g.AtomsAt(h.Loc)
+		// short-circuit guards inside the condition that contains the use (a || b evaluates b only
+		// when a is false, a && b only when a is true)
+		if top, isE := h.Top.(ast.Expr); isE {
+			atoms = append(atoms, exprGuards(top, h.Node)...)
+		} else if root := enclosingCond(h.Top, h.Node); root != nil {
+			atoms = append(atoms, exprGuards(root, h.Node)...)
+		}
+		for _, a := range atoms {
 			if op, left, ok := cmpWithLen(info, a.Expr, bs, sp); ok {
 				if left && ((op == token.LSS && a.Val) || (op == token.GEQ && !a.Val)) {
 					return true
@@ -891,4 +976,117 @@ func boundGuarded(g *core.Graph, h core.Hit, b ast.Expr, sp core.Path, ff *core.
 		}
 	}
 	return false
+}
+
+// needSetOf: the continue at loc is taken where `_, in := M[<layer>.Digest]` found nothing (or a
+// bool-valued M[<layer>.Digest] is false): M is a set of digests that need verification.
+func needSetOf(g *core.Graph, loc core.Loc, layer types.Object) types.Object {
+	info := g.Info
+	for _, a := range g.AtomsAt(loc) {
+		if a.Val {
+			continue
+		}
+		switch x := ast.Unparen(a.Expr).(type) {
+		case *ast.IndexExpr:
+			if id, ok := ast.Unparen(x.X).(*ast.Ident); ok && core.UsesObj(info, x.Index, layer) && selName(x.Index) == "Digest" {
+				return info.Uses[id]
+			}
+		case *ast.Ident:
+			o := info.Uses[x]
+			if o == nil {
+				continue
+			}
+			for _, d := range g.AssignsTo(o) {
+				as, isA := d.Node.(*ast.AssignStmt)
+				if !isA || len(as.Lhs) != 2 || len(as.Rhs) != 1 {
+					continue
+				}
+				if l1, isId := as.Lhs[1].(*ast.Ident); !isId || info.ObjectOf(l1) != o {
+					continue
+				}
+				if ix, isIx := ast.Unparen(as.Rhs[0]).(*ast.IndexExpr); isIx && core.UsesObj(info, ix.Index, layer) && selName(ix.Index) == "Digest" {
+					if id, ok := ast.Unparen(ix.X).(*ast.Ident); ok {
+						return info.Uses[id]
+					}
+				}
+			}
+		}
+	}
+	return nil
+}
+
+// needSetDiscipline: the set m only grows (no delete, no store of false), and for every
+// downloadBlob call the store m[<layer>.Digest] = … is made exactly on the edge where the call's
+// first result (cache hit) is false, with no further condition.
+func needSetDiscipline(g *core.Graph, m types.Object, dls []core.Hit) (bool, string) {
+	info := g.Info
+	for _, call := range g.FindCalls("builtin.delete") {
+		if id, ok := ast.Unparen(call.Node.(*ast.CallExpr).Args[0]).(*ast.Ident); ok && info.Uses[id] == m {
+			return false, "an entry is deleted from the set"
+		}
+	}
+	stores := g.Find(func(n ast.Node) bool {
+		as, ok := n.(*ast.AssignStmt)
+		if !ok || len(as.Lhs) != 1 {
+			return false
+		}
+		ix, isIx := ast.Unparen(as.Lhs[0]).(*ast.IndexExpr)
+		if !isIx {
+			return false
+		}
+		id, isId := ast.Unparen(ix.X).(*ast.Ident)
+		return isId && info.Uses[id] == m
+	})
+	if len(stores) == 0 || len(dls) == 0 {
+		return false, "no store into the set"
+	}
+	for _, st := range stores {
+		if core.ExprString(st.Node.(*ast.AssignStmt).Rhs[0]) == "false" {
+			return false, "a store of false takes a digest out of the set"
+		}
+	}
+	for _, d := range dls {
+		hv := core.ResultVar(info, d.Top, d.Node.(*ast.CallExpr), 0)
+		if hv == nil {
+			return false, "cache-hit result not bound"
+		}
+		good := false
+		for _, st := range stores {
+			if s, _ := g.OnSuccessOf(d, st.Loc); !s {
+				continue
+			}
+			miss, extra := false, 0
+			var testLoc core.Loc
+			for _, cb := range g.CondBlocks() {
+				if core.UsesObj(info, cb.Cond, hv) && g.Dominates(g.CondLoc(cb.B), st.Loc) {
+					testLoc = g.CondLoc(cb.B)
+				}
+			}
+			if !testLoc.Valid() {
+				continue
+			}
+			before := map[string]bool{}
+			for _, a := range g.AtomsAt(testLoc) {
+				before[core.ExprString(a.Expr)] = true
+			}
+			for _, a := range g.AtomsAt(st.Loc) {
+				if id, isId := ast.Unparen(a.Expr).(*ast.Ident); isId && info.Uses[id] == hv {
+					if !a.Val {
+						miss = true
+					}
+					continue
+				}
+				if !before[core.ExprString(a.Expr)] {
+					extra++
+				}
+			}
+			if miss && extra == 0 {
+				good = true
+			}
+		}
+		if !good {
+			return false, "no store into the set exactly on the cache-miss edge of this downloadBlob"
+		}
+	}
+	return true, ""
 }
